@@ -34,7 +34,7 @@ def have_std() -> bool:
 def header(g=True) -> str:
     h = HEADER
     if have_std():
-        h += 'From PT Require Import Lang.WriteStd Lang.ParseStd Lang.Whitespace Lang.WhitespaceStd.\n'
+        h += 'From PT Require Import Lang.WriteStd Lang.ParseStd Lang.Whitespace Lang.WhitespaceStd Lang.StdDenotes.\nFrom Coq Require Import Lia.\n'
     return h + ('Require Import GC12.Tables.\n' if g else '')
 
 
@@ -76,6 +76,27 @@ def emit_wtable(name: str, ent: dict) -> str:
         ('w_subclose', ostr(get('Marking', 'subscript_close'))),
     ]
     return f'Definition {name} : wtable := {{|\n  ' + ';\n  '.join(f'{k} := {v}' for k, v in fields) + ' |}.\n'
+
+
+def reverse_entry(rows) -> dict:
+    """The standard alphabet as a writer table: for each item the (first) character the parse table maps to it."""
+    strings, seen = [], set()
+    kindmap = {'Operator': 'Operator', 'Quantifier': 'Quantifier', 'System': 'System'}
+    for chars, kind, value in rows:
+        if len(chars) != 1 or isinstance(kind, dict) or isinstance(value, dict):
+            continue
+        if kind in kindmap:
+            key = [kindmap[kind], value]
+        elif kind in ('Atomic', 'Variable', 'Constant', 'Predicate'):
+            key = ['tuple', [kind, value]]
+        else:
+            continue
+        if json.dumps(key) not in seen:
+            seen.add(json.dumps(key))
+            strings.append([key, chars])
+    strings.append([['Marking', 'subscript_open'], []])
+    strings.append([['Marking', 'subscript_close'], []])
+    return dict(strings=strings)
 
 
 def tname(e) -> str:
@@ -137,6 +158,7 @@ def emit_tables(chk: Check, tb: dict) -> bool:
             if not (isinstance(po, list) and isinstance(pc, list) and len(po) == 1 and len(pc) == 1):
                 raise pl.Inexpressible(f'standard table reversed parens: {po!r} {pc!r}')
             body.append(f'Definition std_opts : sopts := {{| drop_parens := true; popen := {po[0]}%N; pclose := {pc[0]}%N |}}.\n')
+            body.append(emit_wtable('std_rev_w', reverse_entry(tb['parse']['standard'])))
     except pl.Inexpressible as e:
         chk.obligation('tables:expressible', False)
         chk.violation('tables:inexpressible', f'tables cannot be expressed in the model: {e}',
@@ -195,6 +217,21 @@ def agree_obligations(chk: Check, tb: dict) -> None:
             ob.append(WS_POLISH)
         if wans[1] and wans[2]:
             ob.append(WS_STD)
+        dans = pl.eval_bools(PID, header(), ['agree_b standard_table std_rev_w',
+                                             'match tlookup standard_table (popen std_opts), tlookup standard_table (pclose std_opts) '
+                                             'with Some IParenOpen, Some IParenClose => true | _, _ => false end'], name='StatusDen')
+        dok = [a.strip() == 'true' for a in dans]
+        chk.obligation('standard:alphabet-agree_b', dok[0])
+        chk.obligation('standard:paren-characters', dok[1])
+        if all(dok) and wans[1]:
+            ref = pl.Ref(tb['parse']['standard'])
+            A, Bc, amp = ord(ref.sym('Atomic', 0)), ord(ref.sym('Atomic', 1)), ord(ref.sym('Operator', 'Conjunction'))
+            a, b, eq = ord(ref.sym('Constant', 0)), ord(ref.sym('Constant', 1)), ord(ref.sym('System', 'Identity'))
+            ob.append(DEN_STD % dict(A=A, amp=amp, a=a, b=b, eq=eq))
+        else:
+            chk.violation('standard:denotes-side-conditions', 'side conditions of C12_standard_denotes fail on the regenerated '
+                          f'standard parse table (alphabet agree_b={dok[0]}, paren characters={dok[1]}, table_ok={wans[1]})',
+                          dict(kind='obligation', obligation='agree_b standard_table std_rev_w / parens'), found_input=False)
     write_if_changed(g / 'Obl.v', '\n'.join(ob))
     rc, out = coqc(g / 'Obl.v')
     if rc:
@@ -248,6 +285,30 @@ Theorem C12_standard_whitespace : forall auto P i,
 Proof.
   intros. apply (C12_parse_std_ws (cfg_of standard_table auto) obl_standard_table_ok); [left; reflexivity | |];
     vm_compute; reflexivity.
+Qed.
+'''
+
+DEN_STD = '''
+Lemma obl_std_alphabet : agree_b standard_table std_rev_w = true.
+Proof. vm_compute. reflexivity. Qed.
+Theorem C12_standard_denotes_inst : forall s w d, roundtrippable s = true ->
+  Rtop std_rev_w (popen std_opts) (pclose std_opts) s w -> strip standard_table d = w ->
+  parse_std_opts (cfg_of standard_table false) std_opts (decls s) d = (OK s, decls s) /\\
+  parse_std_opts (cfg_of standard_table true) std_opts [] d = (OK s, decls s).
+Proof.
+  apply (C12_standard_denotes standard_table std_rev_w std_opts obl_standard_table_ok obl_std_alphabet);
+    vm_compute; reflexivity.
+Qed.
+(* non-vacuity: "A & a = b" (outer parentheses dropped, identity infix) is such a rendering *)
+Example C12_standard_denotes_example :
+  Rtop std_rev_w (popen std_opts) (pclose std_opts)
+    (Bin Conjunction (Atom 0 0) (Pred (PSys Identity) [Const 0 0; Const 1 0])) [%(A)d; %(amp)d; %(a)d; %(eq)d; %(b)d]%%N.
+Proof.
+  apply (Rtop_drop _ _ _ Conjunction _ _ [%(amp)d]%%N [%(A)d]%%N [%(a)d; %(eq)d; %(b)d]%%N).
+  - reflexivity.
+  - apply Rs_atom. reflexivity.
+  - apply (Rs_infix _ _ _ (PSys Identity) (Const 0 0) [Const 1 0] [%(a)d]%%N [%(eq)d]%%N [%(b)d]%%N); try reflexivity.
+    all: try (cbn; lia).
 Qed.
 '''
 
@@ -346,7 +407,8 @@ def _run(chk, args) -> int:
     agree_obligations(chk, tb)
     chk.assumptions = props_assumptions(PID)
     chk.theorems = ['C12_polish_roundtrip', 'C12_write_polish_injective', 'C12_argstr_roundtrip',
-                    'C12_parse_polish_ws', 'C12_parse_std_ws', 'gen: C12_polish_whitespace', 'gen: C12_standard_whitespace',
+                    'C12_parse_polish_ws', 'C12_parse_std_ws', 'C12_standard_denotes',
+                    'gen: C12_polish_whitespace', 'gen: C12_standard_whitespace', 'gen: C12_standard_denotes_inst',
                     'gen: C12_polish_ascii_roundtrip', 'gen: C12_polish_ascii_injective',
                     'gen: C12_polish_argstr_roundtrip']
     rng = random.Random(args.seed)
